@@ -92,6 +92,14 @@ func c07FieldMatrix() []c07FieldCase {
 				add(fmt.Sprintf("%s: byte 0x%02x inserted at offset %d -> %q", h.name, b, off, v), [][2]string{{":status", h.status}, {h.name, v}}, body, os...)
 			}
 		}
+		// round 5: case variants of the value (whole value and each alphabetic run), every reacting option set
+		for _, v := range c07CaseVariants(h.value) {
+			body := h.body
+			if body == "\x00gz" {
+				body = string(c07Gzip([]byte("hello hello hello")))
+			}
+			add(fmt.Sprintf("%s: case-variant %q of %q", h.name, v, h.value), [][2]string{{":status", h.status}, {h.name, v}}, body, h.opts...)
+		}
 	}
 	return out
 }
@@ -149,7 +157,7 @@ func c07WireRun(s *verifh.Session, idPrefix string, clients []*Client, opts []c0
 
 func TestVerif_C07_h2wire(t *testing.T) {
 	s := verifh.New(t, "C07", "h2wire",
-		"byte-position matrix over HTTP/2 (prior knowledge, frame-script peer, HPACK): all 256 byte values in the middle of / as a regular field name; stratified byte values (all controls, DEL, UTF-8 class edges, delimiters, digit/alpha edges + a seed-dependent eighth; thorough: all) in a pseudo-header name, a field value, :status first/last/extra digit, content-length; one byte inserted at the offsets of content-type (charset), content-encoding, location, set-cookie, www-authenticate (digest), alt-svc, trailer values under the option sets that react; oracle: the call returns response-or-error, no panic; every case non-trivial")
+		"byte-position matrix over HTTP/2 (prior knowledge, frame-script peer, HPACK): all 256 byte values in the middle of / as a regular field name; stratified byte values (all controls, DEL, UTF-8 class edges, delimiters, digit/alpha edges + a seed-dependent eighth; thorough: all) in a pseudo-header name, a field value, :status first/last/extra digit, content-length; one byte inserted at the offsets of content-type (charset), content-encoding, location, set-cookie, www-authenticate (digest), alt-svc, trailer values under the option sets that react, and case variants of those values (whole value upper / lower / swapped, each alphabetic run alone); oracle: the call returns response-or-error, no panic; every case non-trivial")
 	peer := newC07H2Peer(t)
 	defer peer.closeAll()
 	base := "http://" + peer.ln.Addr().String()
